@@ -1,8 +1,13 @@
 package mon
 
 import (
+	"bytes"
 	"fmt"
+	"os"
 	"path/filepath"
+	"time"
+
+	"github.com/KevoDB/kevo/pkg/verifhook"
 
 	"verif/internal/core"
 	"verif/internal/kv"
@@ -31,6 +36,10 @@ func init() {
 }
 
 func runC12(c *core.Ctx, res *core.Result) {
+	if c.Idx%10 == 9 {
+		c12CloseDuringCompaction(c, res)
+		return
+	}
 	r := c.Rand
 	cfg := kv.Cfg{MemTableSize: []int64{1, 1, 200, 600, 4096}[r.Intn(5)], MaxMemTables: r.Range(1, 4), SyncMode: r.Intn(3), CompactSecs: 3600}
 	bg := r.Chance(30)
@@ -112,4 +121,93 @@ func runC12(c *core.Ctx, res *core.Result) {
 		}
 		res.Sample = map[string]interface{}{"case": c.Idx, "config": cfg, "locality": ks.Locality, "program_head": s, "compactions_that_changed_files": changed}
 	}
+}
+
+// c12CloseDuringCompaction: the engine is closed while the *background* compaction worker is in the
+// middle of a cycle over multi-block tables (the hook callback tells the monitor when a cycle has
+// selected its inputs). Close has to wait for the cycle; afterwards the database is reopened on the
+// table files alone (log retired) and must read exactly as before.
+func c12CloseDuringCompaction(c *core.Ctx, res *core.Result) {
+	r := c.Rand
+	cfg := kv.Cfg{MemTableSize: 32 << 20, MaxMemTables: r.Range(2, 3), SyncMode: 0, CompactSecs: 1}
+	dir := c.Dir + "/db"
+	eng, err := kv.Open(dir, cfg)
+	if err != nil {
+		res.Violate("open_error", err.Error(), nil)
+		return
+	}
+	model := kv.NewModel()
+	started := make(chan struct{}, 1)
+	verifhook.Set(func(site string) {
+		if site == "compaction.cycle.after_select" {
+			select {
+			case started <- struct{}{}:
+			default:
+			}
+			time.Sleep(time.Duration(r.Range(0, 3)) * time.Millisecond)
+		}
+	})
+	defer verifhook.Set(nil)
+	// several level-0 tables of more than one data block each, with overlapping keys, overwrites and deletes
+	nfiles := cfg.MaxMemTables + r.Range(0, 2)
+	for f := 0; f < nfiles; f++ {
+		for i := 0; i < r.Range(60, 140); i++ {
+			k := []byte(fmt.Sprintf("k%04d", r.Intn(400)))
+			if r.Chance(15) {
+				eng.Delete(k)
+				model.Del(k)
+			} else {
+				v := append([]byte(fmt.Sprintf("c%d.%d.%d|", c.Idx, f, i)), bytes.Repeat([]byte("x"), r.Range(800, 3000))...)
+				eng.Put(k, v)
+				model.Put(k, v)
+			}
+		}
+		eng.FlushImMemTables()
+		eng.FlushImMemTables()
+	}
+	// wait for the background worker to start a cycle, then close at once
+	hit := false
+	select {
+	case <-started:
+		hit = true
+	case <-time.After(4 * time.Second):
+	}
+	eng.Close()
+	files, _ := filepath.Glob(filepath.Join(dir, "wal", "*.wal"))
+	for _, f := range files {
+		os.Remove(f)
+	}
+	eng, err = kv.Open(dir, cfg)
+	if err != nil {
+		res.Violate("open_error", "reopen after close during compaction: "+err.Error(), nil)
+		return
+	}
+	defer eng.Close()
+	feat := map[string]string{"scenario": "close_during_background_compaction"}
+	lost, wrong := 0, 0
+	first := ""
+	for _, k := range model.EverSorted() {
+		v, gerr := eng.Get([]byte(k))
+		want, live := model.Get([]byte(k))
+		if (gerr == nil) != live || (live && !bytes.Equal(v, want)) {
+			if live && gerr != nil {
+				lost++
+			} else {
+				wrong++
+			}
+			if first == "" {
+				first = fmt.Sprintf("key %s reads %s (err %v), expected %s live=%v", k, kv.Q(v), gerr, kv.Q(want), live)
+			}
+		}
+	}
+	res.Count("closes_during_compaction", 1)
+	if hit {
+		res.Count("closes_that_hit_a_running_cycle", 1)
+	}
+	if first != "" {
+		res.Violate("compaction_changed_content", fmt.Sprintf("the engine was closed while the background compaction worker was inside a cycle (%d level-0 tables of several blocks); after reopening on the table files %d keys are lost and %d read a wrong value, e.g. %s", nfiles, lost, wrong, first), feat)
+		return
+	}
+	res.Sig = core.Sig("close-during-compaction", cfg.String(), nfiles, hit)
+	res.Nontrivial = hit
 }
